@@ -278,24 +278,23 @@ Proof.
 Qed.
 
 (** ** [expire] *)
-Lemma expire_inv : forall st keep st', Inv st -> expire repaired st keep = Some st' -> Inv st'.
+Lemma expire_inv : forall st keep, Inv st -> Inv (expire repaired st keep).
 Proof.
-  intros st keep st' H He. unfold expire in He.
-  destruct (st_fs st) as [|f fl]; [inversion He; subst; exact H|].
+  intros st keep H. unfold expire.
+  destruct (st_fs st) as [|f fl]; [exact H|].
   destruct (f =? 0) eqn:E0.
-  { inversion He; subst st'. apply Inv_build; sp.
+  { apply Inv_build; sp.
     - apply Inv_TInv; exact H.
     - apply (inv_kv _ H).
     - apply SInv_remove_pase. apply Inv_SInv; exact H.
     - apply (inv_recs _ H).
     - apply (inv_kvrecs _ H).
     - apply (inv_subs _ H). }
-  destruct (fget f (st_fabs st)) as [fb|] eqn:G; [|discriminate].
-  destruct (fget f (st_kvfabs st)) as [kf|] eqn:K.
-  - (* resurrected from the persisted copy *)
-    inversion He; subst st'.
-    pose proof (kv_live _ _ _ _ H (live_fget _ _ _ G) K) as Hinc.
-    pose proof (fget_In _ _ _ K) as [_ Hidx].
+  cbv zeta. destruct (fget f (st_kvfabs st)) as [kf|] eqn:K.
+  - (* resurrected from the persisted copy (which, by [inv_kv], is also in RAM) *)
+    pose proof (fget_In _ _ _ K) as [Hkin Hidx].
+    pose proof (inv_kv _ H kf Hkin) as Hl. rewrite Hidx in Hl. destruct Hl as (fb & G & Hinc).
+    symmetry in Hinc.
     assert (Hm : forall i c, fab_live (st_fabs st) i c ->
                    fab_live (fdel f (st_fabs st) ++ [kf]) i c).
     { intros i c. eapply live_replace; eauto. }
@@ -307,7 +306,7 @@ Proof.
     + intros x Hx. apply Hm. apply (inv_kvrecs _ H); exact Hx.
     + intros x Hx. apply Hm. apply (inv_subs _ H); exact Hx.
   - (* rolled back *)
-    inversion He; subst st'. cbn [fx_expire_sessions repaired]. apply drop_bound_inv; sp.
+    cbn [fx_expire_sessions repaired]. apply drop_bound_inv; sp.
     + apply TInv_fdel. apply Inv_TInv; exact H.
     + intros x Hx. apply live_fdel; [apply (inv_kv _ H); exact Hx|].
       exact (fget_none _ _ K x Hx).
@@ -444,7 +443,6 @@ Proof.
     + apply SInv_remove_pase. inv_fields H.
   - (* ORemove *)
     destruct (sess_ctx st sid) as [s|] eqn:C; [|exact H].
-    destruct (s_fab s =? 0); [exact H|].
     destruct (negb (allowed st s)); [exact H|].
     destruct (i =? 0); [exact H|].
     destruct (fget i (st_fabs st)) as [fb|] eqn:G; [|exact H].
@@ -457,18 +455,15 @@ Proof.
       apply live_fdel; [apply (inv_recs _ H); exact Hx|exact Hne].
     + intros x Hx Hne. apply live_fdel; [apply (inv_subs _ H); exact Hx|exact Hne].
   - (* OTimeout *)
-    destruct (expire repaired st None) as [st'|] eqn:E; [|exact H].
-    eapply expire_inv; eauto.
+    cbn [fst]. apply expire_inv; exact H.
   - (* OArm0 *)
     destruct (sess_ctx st sid) as [s|] eqn:C; [|exact H].
     destruct (negb (allowed st s)); [exact H|].
-    destruct (expire repaired st (Some (s_id s))) as [st'|] eqn:E; [|exact H].
-    eapply expire_inv; eauto.
+    cbn [fst]. apply expire_inv; exact H.
   - (* ORevoke *)
     destruct (sess_ctx st sid) as [s|] eqn:C; [|exact H].
     destruct (negb (allowed st s)); [exact H|].
-    destruct (expire repaired st (Some (s_id s))) as [st'|] eqn:E; [|exact H].
-    eapply expire_inv; eauto.
+    cbn [fst]. apply expire_inv; exact H.
   - (* OEstablish *)
     destruct (find (fun f => f_root f =? r) (st_fabs st)) as [f|] eqn:F; [|exact H].
     apply establish_inv; [exact H|]. apply find_some in F. apply (inv_idx _ H). tauto.
